@@ -102,19 +102,19 @@ NULL = NullType()
 
 
 def nullitemgetter(item, *items):
-    """An itemgetter() that replaces None values with NULL."""
+    """An itemgetter() returning sort keys that order None before any value.
+
+    Each value is paired with a flag telling whether it is not None:
+    None values are thus never compared with values of other types.
+    """
     if items:
         items = (item, *items)
         def func(obj):
-            r = []
-            for i in items:
-                value = obj[i]
-                r.append(value if value is not None else NULL)
-            return tuple(r)
+            return tuple((obj[i] is not None, obj[i]) for i in items)
         return func
     def func(obj):
         value = obj[item]
-        return value if value is not None else NULL
+        return (value is not None, value)
     return func
 
 
@@ -142,7 +142,7 @@ def execute_query(query):
         othercols = [i for i in range(len(columns)) if i not in query.pivots]
         nother = len(othercols)
         other = lambda x: tuple(x[i] for i in othercols)
-        keys = sorted({row[col2] for row in rows}, key=lambda key: key if key is not None else NULL)
+        keys = sorted({row[col2] for row in rows}, key=lambda key: (key is not None, key))
 
         # Compute the new column names and dtypes.
         if nother > 1:
